@@ -102,7 +102,9 @@ FFVals(ty) == {Zero, FromInt(1), FromInt(-1), FromInt(255), FromInt(256), TyMax(
 PrimKinds == {"Prim.truncated", "Prim.integral", "Prim.positive"}
 FFCells == UNION {{[k |-> kk, ty |-> ty, v |-> v, frac |-> FALSE] : kk \in PrimKinds, v \in {x \in FFVals(ty) : ty # "i64" \/ x # TyMax(ty)}} : ty \in IntTys}
            \cup {[k |-> kk, ty |-> ty, v |-> FromInt(n), frac |-> TRUE] : kk \in PrimKinds, ty \in IntTys, n \in {0, 1, -1, 254, 255}}
-Cells == EpochFromCells \cup FFCells \cup DateNewCells \cup DateAddCells \cup DateAddMonthCells \cup DateAddWeekCells \cup DTNewCells \cup DTAddCells \cup DTRoundCells \cup DateToDTCells \cup DateEpochCells \cup DateToZonedCells \cup DateConstrainCells \cup DTToZonedCells
+\* Default::default() of the date types is a date (the epoch day), not the all-zero record
+DefaultCells == {[k |-> "Default.date", ty |-> ty] : ty \in {"PlainDate", "PlainDateTime", "PlainYearMonth", "PlainMonthDay"}}
+Cells == EpochFromCells \cup FFCells \cup DefaultCells \cup DateNewCells \cup DateAddCells \cup DateAddMonthCells \cup DateAddWeekCells \cup DTNewCells \cup DTAddCells \cup DTRoundCells \cup DateToDTCells \cup DateEpochCells \cup DateToZonedCells \cup DateConstrainCells \cup DTToZonedCells
          \cup DateConvCells \cup StrCells \cup ZStrCells \cup ZdtCells \cup InstNewCells \cup InstAddCellsOK \cup InstMsCells \cup InstRoundCellsOK \cup DurAddCells
 
 \* the call (op, args) and its expected outcome
@@ -150,6 +152,7 @@ Call(c) ==
              out |-> IF (c.tt # "none" /\ DTNew(DT(CivilFromDays(c.n), t)).kind # "ok") \/ ~InInstantRange(ns) THEN ErrRange ELSE Ok(ns)]
     [] c.k = "PlainDate.epochNsUtc" -> [op |-> "PlainDate.epochNsUtc", args |-> [recv |-> CivilFromDays(c.n)],
                                         out |-> IF c.n > MinDay THEN Ok(Mul(DayNsBig, FromInt(c.n))) ELSE ErrRange]
+    [] c.k = "Default.date" -> [op |-> c.k, args |-> [ty |-> c.ty], out |-> Ok([y |-> 1970, m |-> 1, d |-> 1, dim |-> 31])]
     [] c.k = "Prim.epochNs" -> [op |-> c.k, args |-> [src |-> c.src, v |-> c.v, frac |-> c.frac, special |-> c.special], out |-> EpochNsFrom(c.src, c.v, c.frac, c.special)]
     [] c.k \in {"Prim.truncated", "Prim.integral", "Prim.positive"} ->
          [op |-> c.k, args |-> [ty |-> c.ty, v |-> c.v, frac |-> c.frac],
